@@ -747,3 +747,47 @@ func (s *Stable) Next(b []byte) (intact bool, was, now []byte) {
 	s.copyOf = append([]byte(nil), b...)
 	return
 }
+
+// Spare returns a copy of data that sits in front of `extra` bytes of spare
+// capacity filled with a sentinel, and a function that reports whether the
+// spare capacity (or the data itself) was written to. A callee that appends to
+// an argument it does not own writes into memory the caller may be using
+// (consecutive sub-slices of one buffer).
+func Spare(data []byte, extra int) (arg []byte, touched func() string) {
+	buf := make([]byte, len(data)+extra)
+	copy(buf, data)
+	for i := len(data); i < len(buf); i++ {
+		buf[i] = 0xEE
+	}
+	orig := append([]byte(nil), data...)
+	arg = buf[:len(data)]
+	return arg, func() string {
+		for i := len(data); i < len(buf); i++ {
+			if buf[i] != 0xEE {
+				return fmt.Sprintf("byte %d behind the argument (inside its capacity) was overwritten with %02X", i-len(data), buf[i])
+			}
+		}
+		if string(buf[:len(data)]) != string(orig) {
+			return "the argument itself was modified"
+		}
+		return ""
+	}
+}
+
+// Owned checks that what a constructor returns belongs to the caller: the
+// first result is overwritten in place, the constructor is called again, and
+// the second result must be what the first one was (a constructor that hands
+// out entries of a shared table, or a cached value, fails). Returns "" or a
+// description.
+func Owned(f func() []byte) string {
+	r1 := f()
+	want := append([]byte(nil), r1...)
+	for i := range r1 {
+		r1[i] ^= 0xA5
+	}
+	r2 := f()
+	if string(r2) != string(want) {
+		return fmt.Sprintf("after the first result (% X) was overwritten in place, the same call returns % X", want, r2)
+	}
+	return ""
+}
